@@ -22,11 +22,22 @@ def _normal(p):
 _STATE = {}
 
 
-def _spec(ctx, rel, suffix):
-    site = ctx.site(rel, suffix, kind="mux")
+def _spec(ctx, rel, suffix, pick=None):
+    site = ctx.site(rel, suffix, kind="mux", pick=pick)
     spec = site.handler_specs("on_next")[0]
     _STATE[id(spec)] = ctx.only_state(site)
     return site, spec
+
+
+def _creates_deque(ctx, site):
+    """the lag(n) site: the one whose Create branch stores a fresh deque"""
+    for spec in site.handler_specs("on_next"):
+        for kind, cfg, paths in ctx.all_paths(spec, kinds=("Create",)):
+            for p in paths:
+                for e in p.trace:
+                    if e.k == "store" and e.op == "set_state" and e.extra and e.extra[0][0] == "call" and e.extra[0][1] == ("glob", "collections.deque"):
+                        return True
+    return False
 
 
 def _reads(p, name=None):
@@ -209,7 +220,7 @@ def rule_fw2(ctx: Ctx) -> RuleResult:
             and len(wr) == 1 and wr[0].extra[0] == EVITEM and wr[0].key == EVKEY
         r.ob(ok, fail(spec, kind, cfg, p, "lag(1): exactly one pair (previous item or the item itself, item) per item, and the item recorded; "
                                           "this path: %s" % (show(it[0].event.payload) if it else summary(p)), "lag1"))
-    site, spec = _spec(ctx, "rxsci/data/lag.py", "lag._lag.on_subscribe")
+    site, spec = _spec(ctx, "rxsci/data/lag.py", "lag._lag.on_subscribe", pick=lambda s: _creates_deque(ctx, s))
     r.instances += 1
     for kind, cfg, p in each(spec, ("Next",)):
         rd, it = _reads(p), _items(p)
@@ -274,7 +285,7 @@ def rule_fw2(ctx: Ctx) -> RuleResult:
         wr = _writes(p)
         ok = len(wr) == 1 and wr[0].extra[0][0] == "call" and wr[0].extra[0][1] == ("builtin", "set") and not wr[0].extra[0][2] and wr[0].key == EVKEY
         r.ob(ok, fail(spec, kind, cfg, p, "distinct: each key lifetime must start with a fresh empty set", "fresh-set"))
-    site, spec = _spec(ctx, "rxsci/data/lag.py", "lag._lag.on_subscribe")
+    site, spec = _spec(ctx, "rxsci/data/lag.py", "lag._lag.on_subscribe", pick=lambda s: _creates_deque(ctx, s))
     for kind, cfg, p in each(spec, ("Create",)):
         wr = _writes(p)
         ok = len(wr) == 1 and wr[0].extra[0][0] == "call" and wr[0].extra[0][1] == ("glob", "collections.deque") and wr[0].key == EVKEY
